@@ -407,7 +407,11 @@ func c13Inject(r *rng, v *c13Val) string {
 		m.keys = append(m.keys, k)
 		m.vals = append(m.vals, x)
 	}
-	switch r.intn(6) {
+	which := r.intn(6)
+	if c13QuickTier && which >= 4 && !r.chance(1, 5) {
+		which = r.intn(4) // the 32768-byte keys make 64 kB case lines: fewer of them in the quick tier
+	}
+	switch which {
 	case 0:
 		add("", &c13Val{kind: 'S', s: "v"})
 		return "empty-key"
@@ -727,11 +731,15 @@ func c13GenCheckers(tier string, r *rng, out *bufio.Writer) {
 	}
 }
 
+var c13QuickTier bool
+
 func c13Gen(tier string, seed uint64, out *bufio.Writer) {
 	r := newRng(seed)
+	c13QuickTier = tier != "thorough"
 	c13GenKeys(tier, r, out)
 	c13GenValues(tier, r, out)
 	c13GenCheckers(tier, r, out)
 	c13GenContexts(tier, r, out)
 	c13GenSizes(tier, r, out)
+	c13GenOverwrites(tier, r, out)
 }
